@@ -89,10 +89,22 @@ func c04Setup() {
 }
 
 func c04MsgURL(method string) string {
-	if method == "undelegate" {
+	switch method {
+	case "undelegate":
 		return stakingpc.UndelegateMsg
+	case "cancel":
+		return stakingpc.CancelUnbondingDelegationMsg
 	}
 	return stakingpc.DelegateMsg
+}
+
+// c04UnbondingHeight: the creation height of the delegator's first unbonding entry at the validator (1 if there is none)
+func c04UnbondingHeight(del sdk.AccAddress, va sdk.ValAddress) int64 {
+	nw, _ := fixture()
+	if ubd, ok := nw.App.StakingKeeper.GetUnbondingDelegation(nw.GetContext(), del, va); ok && len(ubd.Entries) > 0 {
+		return ubd.Entries[0].CreationHeight
+	}
+	return 1
 }
 
 // c04Grant reads the live grant (granter E, grantee P) for the message type and encodes it.
@@ -139,6 +151,18 @@ var c04GhostExpiry = map[string]time.Time{}
 
 func c04Gen(r *rand.Rand, tier string) []Case {
 	out := c04GenBody(r, tier)
+	// fixed case: the signer undelegates, grants the contract a limited allowance for cancelling unbonding, and the contract
+	// cancels in three steps — the last one beyond what is left
+	out = append(out, Case{
+		"scall 0 0 0 0 ? ? ? # method=undelegate amt=abs:100000",
+		"sallow approve 600 - ? # method=cancel",
+		"scall 0 1 0 0 ? ? ? # method=cancel amt=abs:200",
+		"scall 0 1 0 0 ? ? ? # method=cancel amt=abs:400",
+		"scall 0 1 0 0 ? ? ? # method=cancel amt=abs:100",
+		"sallow approve 900 - ? # method=cancel",
+		"scall 0 1 0 0 ? ? ? # method=cancel amt=abs:300 swallow=1",
+		"scall 0 1 0 0 ? ? ? # method=cancel amt=abs:700",
+	})
 	// fixed case, last (it moves the clock by more than a year): a limited grant, a partial spend a hundred days later,
 	// another one three hundred days after that — past the end the signer gave the grant
 	for _, method := range []string{"delegate"} {
@@ -622,6 +646,8 @@ func c04Exec(c Case) (outs []string, fails []Failure, tags []string) {
 					var e error
 					if method == "delegate" {
 						_, e = srv.Delegate(sdk.WrapSDKContext(cctx), stakingtypes.NewMsgDelegate(addrOf(deleg).Bytes(), va, coin))
+					} else if method == "cancel" {
+						_, e = srv.CancelUnbondingDelegation(sdk.WrapSDKContext(cctx), stakingtypes.NewMsgCancelUnbondingDelegation(addrOf(deleg).Bytes(), va, c04UnbondingHeight(addrOf(deleg).Bytes(), va), coin))
 					} else {
 						_, e = srv.Undelegate(sdk.WrapSDKContext(cctx), stakingtypes.NewMsgUndelegate(addrOf(deleg).Bytes(), va, coin))
 					}
@@ -633,6 +659,10 @@ func c04Exec(c Case) (outs []string, fails []Failure, tags []string) {
 				f[5], f[6], f[7] = amt.String(), pre, native
 				c[i] = strings.Join(f, " ")
 				in, err := sabi.Pack(method, addrOf(deleg), c04Vals[val], amt)
+				if method == "cancel" {
+					va, _ := sdk.ValAddressFromBech32(c04Vals[val])
+					in, err = sabi.Pack("cancelUnbondingDelegation", addrOf(deleg), c04Vals[val], amt, big.NewInt(c04UnbondingHeight(addrOf(deleg).Bytes(), va)))
+				}
 				if err != nil {
 					panic(err)
 				}
